@@ -2,16 +2,16 @@ SPECIFICATION MCSpec
 VIEW View
 CONSTANTS
   Streams = {1, 3}
-  Role = "server"
-  Bud <- BudQuick
+  Role = "client"
+  Bud <- BudThorough
   MaxInq = 2
   MaxBurst = 2
   SetVals = {0, 1}
   PingVals = {1, 2}
-  AckVals = {100, 101}
+  AckVals = {100, 101, 102}
   GoAwayIds = {0, 2147483647}
   Codes = {0, 11}
-  AbruptCodes = {2}
+  AbruptCodes = {}
   AllowEof = TRUE
   LocalVals = {1}
   HarnessPing = FALSE
